@@ -616,6 +616,12 @@ def class_scenarios(rng, count):
                     b.ret(tup(lit(tag), call(b.v("sm"))))
                 b.end()
                 defined.setdefault(mname, []).append(lvl)
+            if lvl > 0 and defined.get("m") and rng.random() < 0.6:
+                # reaches the superclass's m by a route of its own: a field named m on the instance must not be consulted
+                b.method("via", [])
+                b.ret(tup(lit("via@" + cname), b.superinv("m")))
+                b.end()
+                defined.setdefault("via", []).append(lvl)
             if lvl == 0 or rng.random() < 0.3:
                 b.method("who", [])
                 b.ret(tup(lit("who@" + cname), inv(b.v("self"), "m")))
@@ -649,7 +655,8 @@ def class_scenarios(rng, count):
             b.try_()
             b.var(var, mk)
             action = rng.choice(["m", "n", "who", "bound", "field-shadow", "arity", "static-class", "static-inst", "derives", "fields",
-                                 "unknown", "method-in-var", "setf-class", "bound-native-field", "bound-native-field", "super-new"])
+                                 "unknown", "method-in-var", "setf-class", "bound-native-field", "bound-native-field", "super-new",
+                                 "field-shadow-super", "field-shadow-super", "static-value", "static-value", "ctor-value"])
             if action in ("m", "n"):
                 b.print(inv(b.v(var), action, *([lit(step)] if rng.random() < 0.4 else [])))
             elif action == "who":
@@ -658,6 +665,13 @@ def class_scenarios(rng, count):
                 b.var("bm", get(b.v(var), "m")); b.print(call(b.v("bm"))); b.print(b.v("bm"))
             elif action == "field-shadow":
                 b.expr(setf(b.v(var), "m", b.lam([], lambda: lit("field m")))); b.print(inv(b.v(var), "m")); b.print(inv(b.v(var), "who"))
+            elif action == "field-shadow-super":
+                b.expr(setf(b.v(var), "m", b.lam([], lambda: lit("field m")))); b.print(inv(b.v(var), "via")); b.print(inv(b.v(var), "m"))
+            elif action == "static-value":
+                # a static method read as a value through the class and called later keeps the class as its receiver
+                b.var("sv", get(b.v(cname), "s")); b.print(call(b.v("sv"), *([lit(step)] if rng.random() < 0.5 else []))); b.print(b.v("sv"))
+            elif action == "ctor-value":
+                b.var("cv", get(b.v(cname), "new")); b.var("made", call(b.v("cv"))); b.print(inv(b.v("made"), "m")); b.print(call(b.v("type"), b.v("made")))
             elif action == "arity":
                 b.print(inv(b.v(var), "m", lit(1), lit(2)))
             elif action == "static-class":
